@@ -34,6 +34,19 @@ Meaning of the constructs (combinators: lean/KestrelModel/RsPrelude.lean and RsI
   loop { .. }            -> Rs.loop body fuel state; the body becomes a separate definition `<fn>.loop<k>` over the tuple of
                             outer variables it assigns; the function gets a parameter `fuel` and returns Option (none = out of fuel)
   if (may leave the block, not last) -> Rs.Step.andThen (if .. then .. else ..) (fun assigned-variables => rest)
+
+Robustness to maintenance rewrites of the Rust text (tools/selftest_stream_scrypt.py is the regression test):
+  * a `const` item and a helper function (one that is translated only because a TARGETS function calls it) are `@[simp] def`s;
+    the proofs unfold them without naming them (`rs_unfold`, KestrelProofs/RsUnfold.lean), so naming a literal or extracting
+    a private helper does not change what a proof sees.  A helper that writes but has no reader of its own gets the reader
+    as an extra ghost parameter `reader'`, supplied by its callers (the write log records where the reader stands);
+  * the tuple of loop variables is ordered by first assignment inside the loop (not by name or declaration order); what a
+    loop body reads but does not assign becomes a parameter of `<fn>.loop<k>`, which the proofs obtain by unification;
+  * also accepted: tuple types / expressions / `let (a, b) = ..`, `&[T; n]`, a local `const`, `let x = &mut v[a..b];`
+    (x is another name for that part of v: reads and writes go to v; the bounds must not mention mutable variables),
+    `u32::from(b)` for a bool (`if b then 1 else 0`) or a narrower integer, and a final expression / `return` value that has
+    effects at its root (`f(..)` for a translated function that does I/O, `…?`): `f(..)?; Ok(())` and `f(..)` as the last
+    expression translate to terms the proofs identify (`StreamSrc.requestion`).
 """
 import sys, os, hashlib
 
@@ -297,7 +310,9 @@ class SParser(B.Parser):
             if self.peek().kind == 'lifetime': self.next()
             mut = bool(self.accept('mut'))
             if self.at('['):
-                self.next(); elem = self.parse_type(); self.expect(']')
+                self.next(); elem = self.parse_type()
+                if self.accept(';'): self.parse_expr()                 # &[T; n]: a borrowed array is a slice
+                self.expect(']')
                 return ('list', elem, 'mutref' if mut else 'ref')
             inner = self.parse_type()
             if mut:
@@ -306,7 +321,13 @@ class SParser(B.Parser):
             return inner
         if self.accept('('):
             if self.accept(')'): return 'unit'
-            raise Unsupported('tuple type', tok.line)
+            parts = [self.parse_type()]
+            while self.accept(','):
+                if self.at(')'): break
+                parts.append(self.parse_type())
+            self.expect(')')
+            if len(parts) == 1: return parts[0]
+            return ('tuple', tuple(parts))
         if self.accept('['):
             elem = self.parse_type(); self.expect(';'); self.parse_expr(); self.expect(']')
             return ('list', elem, 'own')
@@ -350,6 +371,19 @@ class SParser(B.Parser):
                 stmts.append(Node('use', tok.line, uses=uses)); continue
             if self.at('let'):
                 self.next()
+                if self.at('('):                                        # let (a, b) = e;
+                    self.next(); names = []
+                    while not self.accept(')'):
+                        if self.at('mut') or self.at('ref') or self.at('&') or self.at('('):
+                            raise Unsupported('pattern in `let`', tok.line)
+                        names.append(self.ident().text)
+                        if not self.at(')'): self.expect(',')
+                    ty = self.parse_type() if self.accept(':') else None
+                    if not self.accept('='): raise Unsupported('`let` without initialiser', tok.line)
+                    init = self.parse_expr()
+                    if self.at('else'): raise Unsupported('`let … else`', tok.line)
+                    self.expect(';')
+                    stmts.append(Node('lettuple', tok.line, names=names, ty=ty, init=init)); continue
                 mut = bool(self.accept('mut'))
                 name = self.ident()
                 if self.at('(') or self.at('{') or self.at('::'): raise Unsupported('pattern in `let`', tok.line)
@@ -359,6 +393,11 @@ class SParser(B.Parser):
                 if self.at('else'): raise Unsupported('`let … else`', tok.line)
                 self.expect(';')
                 stmts.append(Node('let', tok.line, name=name.text, mut=mut, ty=ty, init=init)); continue
+            if self.at('const') and self.peek(1).kind == 'id' and self.at(':', 2):
+                self.next()                                             # a local `const X: T = e;` is an immutable `let`
+                name = self.ident(); self.expect(':'); ty = self.parse_type(); self.expect('=')
+                init = self.parse_expr(); self.expect(';')
+                stmts.append(Node('let', tok.line, name=name.text, mut=False, ty=ty, init=init)); continue
             if self.at('for'):
                 self.next()
                 pat = self.parse_pattern(); self.expect('in')
@@ -491,6 +530,16 @@ class SParser(B.Parser):
             return Node('closure', tok.line, params=params, body=self.parse_expr())
         if tok.kind == 'p' and tok.text == '(' and self.at(')', 1):
             self.next(); self.next(); return Node('unit', tok.line)
+        if tok.kind == 'p' and tok.text == '(':
+            self.next()
+            first = self.parse_expr()
+            if self.accept(')'): return Node('paren', tok.line, e=first)
+            elems = [first]
+            while self.accept(','):
+                if self.at(')'): break
+                elems.append(self.parse_expr())
+            self.expect(')')
+            return Node('tuple', tok.line, elems=elems)
         if tok.kind == 'p' and tok.text == '[':
             self.next()
             if self.accept(']'): return Node('array', tok.line, elems=[])
@@ -638,6 +687,7 @@ IO_METHODS = {   # name -> (receiver kind, glue, has buffer / data argument, Rus
     'flush':      ('writer', 'RsIO.flush',     None,   ('result', 'unit', 'ioerror')),
 }
 WIDTH = {'u8': 8, 'u32': 32, 'usize': 64, 'u64': 64}
+GHOST_READER = "reader'"        # name of the ghost parameter (not a Rust identifier, so it cannot clash)
 EXIT_KINDS = ('return', 'break', 'continue', 'try', 'loop')
 
 
@@ -665,6 +715,9 @@ class SFn(B.FnTranslator):
         self.crate, self.mod, self.module = crate, mod, crate.mods[mod]
         super().__init__(fn, {}, self.module.items['uses'], self.module.src_lines)
         self.lean_name = lean_name or lname(fn.name)
+        self.attr = ''              # text in front of `def` (the driver marks helper functions `@[simp]`)
+        self.ghost_ok = False       # may a function without a reader get a ghost reader parameter? (set by the driver)
+        self.ghost = None
         self.local_uses = {}
         self.deps = set()           # ('from', index) / ('enum', qualified name) / ('const', module, name) / ('fn', module, name)
 
@@ -677,6 +730,7 @@ class SFn(B.FnTranslator):
             if t[0] == 'result': return ('result', self.sem(t[1], line), self.sem(t[2], line))
             if t[0] == 'option': return ('option', self.sem(t[1], line))
             if t[0] == 'mutref': return ('mutref', self.sem(t[1], line))
+            if t[0] == 'tuple': return ('tuple', tuple(self.sem(x, line) for x in t[1]))
             if t[0] == 'named':
                 path = t[1]
                 if len(path) == 1 and path[0] in self.fn.generics:
@@ -737,6 +791,9 @@ class SFn(B.FnTranslator):
                 if not self.crate.mods[mod].items['structs'][name].unit: self.bad(f'struct `{t[1]}` with fields')
                 return 'Unit'
             if t[0] == 'resres': return 'Res'
+            if t[0] == 'tuple':
+                parts = [self.lt(x) for x in t[1]]
+                return ' × '.join(x if ' ' not in x else f'({x})' for x in parts)
             if t[0] == 'result':
                 a, b = self.lt(t[2]), self.lt(t[1])
                 return 'Except ' + ' '.join(x if ' ' not in x else f'({x})' for x in (a, b))
@@ -752,6 +809,7 @@ class SFn(B.FnTranslator):
             if t[0] in ('enum', 'struct'): return t[1]
             if t[0] == 'mutref': return f'&mut {self.show(t[1])}'
             if t[0] == 'option': return f'Option<{self.show(t[1])}>'
+            if t[0] == 'tuple': return '(' + ', '.join(self.show(x) for x in t[1]) + ')'
         return str(t)
 
     def is_int(self, t):
@@ -773,6 +831,9 @@ class SFn(B.FnTranslator):
             self.unify(a[1], b[1], line, what); self.unify(a[2], b[2], line, what); return a
         if isinstance(a, tuple) and isinstance(b, tuple) and a[0] == b[0] == 'option':
             self.unify(a[1], b[1], line, what); return a
+        if isinstance(a, tuple) and isinstance(b, tuple) and a[0] == b[0] == 'tuple' and len(a[1]) == len(b[1]):
+            for x, y in zip(a[1], b[1]): self.unify(x, y, line, what)
+            return a
         if a != b: self.bad(f'{what}: types {self.show(a)} and {self.show(b)} differ', line)
         return a
 
@@ -871,12 +932,23 @@ class SFn(B.FnTranslator):
                             return (f'{self.paren(r)}.{lname(fname)}', self.sem_in(mod, fty), False)
             self.bad(f'field access `.{e.name}` on {self.show(rt)}', e.line)
         if k == 'loop': self.bad('`loop` as an expression', e.line)
+        if k == 'tuple':
+            w = resolve(want) if want is not None else None
+            ws = list(w[1]) if isinstance(w, tuple) and w[0] == 'tuple' and len(w[1]) == len(e.elems) else [None] * len(e.elems)
+            rs = [self.expr(x, wx) for x, wx in zip(e.elems, ws)]
+            for r, wx in zip(rs, ws):
+                if wx is not None: self.unify(r[1], wx, e.line, 'tuple component')
+            rs = [self.expr(x, wx) for x, wx in zip(e.elems, ws)]
+            return ('(' + ', '.join(r[0] for r in rs) + ')', ('tuple', tuple(r[1] for r in rs)), True)
         return super().expr(e)
 
     def path_expr(self, e):
         path = e.path
         if len(path) == 1:
             v = self.lookup_opt(path[0])
+            if v is not None and v.kind == 'alias':
+                tv, read, wb, ty, sub = self.alias_place(v, e.line)
+                return (read, ('list', resolve(ty)[1], 'ref'), not sub)
             if v is not None: return (lname(v.name), v.ty, True)
         full = self.crate.resolve(self.mod, self.local_uses, path)
         it = self.crate.item(full)
@@ -1051,6 +1123,17 @@ class SFn(B.FnTranslator):
             self.unify(r[1], w[1] if path[0] == 'Ok' else w[2], e.line, f'argument of `{path[0]}`')
             self.lt(w)
             return (f'Except.{"ok" if path[0] == "Ok" else "error"} {self.paren(r)}', w, False)
+        if len(path) == 2 and path[0] in INTS and path[1] == 'from' and self.lookup_opt(path[0]) is None:
+            if len(e.args) != 1: self.bad(f'`{"::".join(path)}` arity', e.line)
+            r = self.expr(e.args[0])
+            src = resolve(r[1])
+            if src == 'bool':                                           # `u32::from(b)` is 1 for true and 0 for false
+                lit = '(1 : UInt8) else (0 : UInt8)' if path[0] == 'u8' else '1 else 0'
+                return (f'if {r[0]} then {lit}', path[0], False)
+            if isinstance(src, IntVar): self.bad(f'`{"::".join(path)}` of an untyped literal', e.line)
+            if src in INTS and WIDTH[src] <= WIDTH[path[0]]:            # lossless by construction
+                return self.convert(r, path[0], e.line, f'`{path[0]}::from`')
+            self.bad(f'`{"::".join(path)}` of {self.show(src)}', e.line)
         if path == ['u32', 'from_be_bytes']:
             if len(e.args) != 1: self.bad('`u32::from_be_bytes` arity', e.line)
             r = self.expr(e.args[0])
@@ -1122,6 +1205,35 @@ class SFn(B.FnTranslator):
         if name == 'kind' and not e.args and rt == 'ioerror': return (f'{self.paren(recv)}.kind', 'errkind', False)
         if name in ('copy_from_slice', 'clone_from'): self.bad(f'`.{name}` used as an expression', e.line)
         self.bad(f'method `.{name}` on {self.show(rt)}', e.line)
+
+    # ---- `let x = &mut v[a..b];`: x is another name for that part of v (reads and writes go to v)
+    def alias_target(self, init):
+        """the node `v` / `v[a..b]` when `init` is `&mut v` / `&mut v[a..b]` with `v` a mutable slice variable, else None"""
+        x = init
+        while x.kind == 'paren': x = x.e
+        if x.kind != 'ref' or not x.mut: return None
+        x = x.e
+        while x.kind == 'paren': x = x.e
+        base = x.e if x.kind == 'index' and x.ix.kind == 'range' else x
+        if base.kind == 'path' and len(base.path) == 1:
+            v = self.lookup_opt(base.path[0])
+            if v is not None and v.kind != 'alias' and is_list(v.ty): return x
+        return None
+
+    def alias_place(self, v, line):
+        node, frozen = v.alias
+        for name, var in frozen.items():
+            if self.lookup_opt(name) is not var:
+                self.bad(f'`{v.name}` (a `&mut` borrow made when `{name}` meant something else) used after `{name}` was rebound', line)
+        return super().place(Node('ref', line, mut=True, e=node), f'`{v.name}`')
+
+    def place(self, e, what):
+        x = e
+        while x.kind in ('ref', 'paren'): x = x.e
+        if x.kind == 'path' and len(x.path) == 1:
+            v = self.lookup_opt(x.path[0])
+            if v is not None and v.kind == 'alias': return self.alias_place(v, e.line)
+        return super().place(e, what)
 
     # ---- effects: I/O calls, `.map_err`, `?` (only at the root of a `let` initialiser, an expression statement, `return`)
     def spine(self, e, want=None):
@@ -1230,6 +1342,7 @@ class SFn(B.FnTranslator):
         self.deps.add(('fn', self.mod, node.name))
         for imp in info['implicit']: self.need_implicit(imp)
         fuels = self.take_fuel(len(info['fuel']))
+        if info.get('ghost'): args.append(lname(self.the_reader(e.line).name))
         call = ' '.join([lname(node.name)] + info['implicit'] + args + fuels)
         r = self.fresh('r')
         tup = '(' + ', '.join([r] + [lname(v.name) for v in outs]) + ')' if outs else r
@@ -1281,6 +1394,15 @@ class SFn(B.FnTranslator):
                 if name in seen: continue
                 seen.add(name)
                 if resolve(v.ty) == 'reader': out.append(v)
+        if not out and self.ghost_ok and self.scopes:
+            # a function that writes but has no reader of its own (a helper extracted from a function that has both): the
+            # reader whose position the write log records becomes an extra, ghost parameter that every caller supplies
+            # with the reader in ITS scope
+            self.counter += 1
+            v = B.Var(GHOST_READER, 'reader', False, self.counter, 'ghost')
+            self.scopes[0][GHOST_READER] = v
+            self.ghost = v
+            return v
         if len(out) != 1:
             self.bad('a write needs exactly one reader in scope (the write log records where it stands); found '
                      + str(len(out)), line)
@@ -1335,6 +1457,8 @@ class SFn(B.FnTranslator):
             if name is None or name in local: return
             v = tr.lookup_opt(name)
             if v is None: tr.bad(f'unknown variable `{name}`', line)
+            if v.kind == 'alias':                # a write through `let x = &mut v[..]` made outside these blocks goes to `v`
+                v = v.alias[1][place_name(v.alias[0])]
             found.setdefault(v.order, v)        # order of first assignment: independent of where the variables are declared
 
         def place_name(e):
@@ -1355,7 +1479,10 @@ class SFn(B.FnTranslator):
                 if x.tail is not None: walk(x.tail, inner)
                 return
             if k == 'let':
-                walk(x.init, local); local.add(x.name); return
+                walk(x.init, local)
+                local.add(x.name); return       # (`let x = &mut v[..]`: the `&mut` has just marked `v` as assigned)
+            if k == 'lettuple':
+                walk(x.init, local); local.update(n for n in x.names if n != '_'); return
             if k == 'for':
                 walk(x.iter, local)
                 inner = set(local) | {n for n in x.pat if n != '_'}
@@ -1399,11 +1526,15 @@ class SFn(B.FnTranslator):
 
     def writes_inside(self, node):
         if node.kind == 'mcall' and node.name in IO_METHODS and IO_METHODS[node.name][2] == 'data': return True
+        if node.kind == 'call' and node.f.kind == 'path':
+            it = self.crate.item(self.crate.resolve(self.mod, self.local_uses, node.f.path))
+            if it and it[0] == 'fn' and not it[3] and (getattr(it[2], 'info', None) or {}).get('ghost'): return True
         return any(self.writes_inside(c) for c in children(node))
 
     # ---- statements
     def stmt(self, s):
         if s.kind == 'let': return self.let_stmt(s)
+        if s.kind == 'lettuple': return self.lettuple_stmt(s)
         if s.kind == 'use':
             self.local_uses.update(s.uses); return
         if s.kind == 'for': self.bad('`for` loop', s.line)
@@ -1428,8 +1559,38 @@ class SFn(B.FnTranslator):
         if isinstance(ty, tuple) and ty[0] == 'result': self.bad('a `Result` that is neither `?`-ed nor bound', e.line)
         if len(self.lines) == before: self.bad('expression statement without effect', e.line)
 
+    def lettuple_stmt(self, s):
+        want = self.sem(s.ty, s.line) if s.ty is not None else None
+        r = self.spine(s.init, want)
+        ty = resolve(r[1])
+        if want is not None: ty = resolve(self.unify(r[1], want, s.line, '`let (..)`'))
+        if not (isinstance(ty, tuple) and ty[0] == 'tuple' and len(ty[1]) == len(s.names)):
+            self.bad(f'`let ({", ".join(s.names)})` of a value of type {self.show(ty)}', s.line)
+        vs = []
+        for n, t in zip(s.names, ty[1]):
+            if resolve(t) in ('reader', 'writer'): self.bad('binding a reader / writer to a new name', s.line)
+            vs.append('_' if n == '_' else lname(self.declare(n, t, False, 'local', s.line).name))
+        self.emit(f'let ({", ".join(vs)}) : {self.lt(ty)} := {r[0]}')
+
     def let_stmt(self, s):
         if s.name == '_': self.bad('`let _`', s.line)
+        node = self.alias_target(s.init) if s.ty is None and not s.mut else None
+        if node is not None:
+            base = node.e if node.kind == 'index' else node
+            target = self.lookup(base.path[0], s.line)
+            if not target.mutable: self.bad(f'`&mut` borrow of `{target.name}`, which is not mutable', s.line)
+            frozen = {target.name: target}
+            for name in (B.free_vars(node.ix) if node.kind == 'index' else []):
+                var = self.lookup_opt(name)
+                if var is None:                                         # a `const` item: must not get hidden by a local later
+                    frozen[name] = None; continue
+                if var.mutable or var.kind == 'alias':
+                    self.bad(f'`&mut {target.name}[..]` with a bound that mentions the mutable variable `{name}`', s.line)
+                frozen[name] = var
+            v = self.declare(s.name, ('list', resolve(target.ty)[1], 'mutref'), True, 'alias', s.line)
+            v.alias = (node, frozen)
+            self.alias_place(v, s.line)                                 # type-checks the bounds now
+            return
         want = self.sem(s.ty, s.line) if s.ty is not None else None
         r = self.spine(s.init, want)
         ty = r[1]
@@ -1440,6 +1601,32 @@ class SFn(B.FnTranslator):
         v = self.declare(s.name, ty, s.mut, 'local', s.line)
         asc = '' if isinstance(tv, IntVar) else f' : {self.lt(tv)}'
         self.emit(f'let {lname(v.name)}{asc} := {r[0]}')
+
+    def world_call_node(self, e):
+        if e.kind == 'call' and e.f.kind == 'path':
+            it = self.crate.item(self.crate.resolve(self.mod, self.local_uses, e.f.path))
+            if it and it[0] == 'fn' and not it[3] and it[1] == self.mod and it[2].body is not None:
+                info = getattr(it[2], 'info', None)
+                return info is not None and bool(info['fuel'] or info['world'])
+        return False
+
+    def effectful(self, e):
+        if e is None: return False
+        if e.kind == 'try' or (e.kind == 'mcall' and e.name in IO_METHODS) or self.world_call_node(e): return True
+        return any(self.effectful(c) for c in children(e))
+
+    def ret_any(self, e, line):
+        """the value of `return e;` / of the final expression `e` of the function; `e` may have effects at its root
+        (`f(..)` for a translated function that does I/O, `x.read(..).map_err(g)`, `…?`)"""
+        if not self.effectful(e): return self.ret_value(e, line)
+        r = self.spine(e, self.ret_ty)
+        rt, fr = resolve(r[1]), resolve(self.ret_ty)
+        if isinstance(rt, tuple) and rt[0] == 'resres':
+            if self.res_encoded(fr) and resolve(fr[2]) == resolve(rt[1]): return r[0]
+            self.bad('returned value: the result of a translated function with another error type', line)
+        if self.res_encoded(fr): self.bad('returned value: a `Result<(), E>` that is not `Ok(())`, `Err(e)` or the result of a translated function', line)
+        self.unify(rt, fr, line, 'returned value')
+        return r[0]
 
     def ret_value(self, e, line):
         if e is None:
@@ -1483,7 +1670,8 @@ class SFn(B.FnTranslator):
             inner = s.e if s.kind == 'expr' else None
             while inner is not None and inner.kind == 'paren': inner = inner.e
             if s.kind == 'return':
-                self.emit(ctx.ret_packed(self, self.pack(self.ret_value(s.e, s.line)))); terminated = True
+                val = self.ret_any(s.e, s.line)
+                self.emit(ctx.ret_packed(self, self.pack(val))); terminated = True
             elif s.kind == 'break':
                 self.emit(ctx.brk(self, s.line)); terminated = True
             elif s.kind == 'continue':
@@ -1502,7 +1690,8 @@ class SFn(B.FnTranslator):
             if fn_level:
                 if tail is not None:
                     self.comment(tail.line)
-                    self.emit(ctx.ret_packed(self, self.pack(self.ret_value(tail, tail.line))))
+                    val = self.ret_any(tail, tail.line)
+                    self.emit(ctx.ret_packed(self, self.pack(val)))
                 elif resolve(self.ret_ty) == 'unit':
                     self.emit(ctx.ret_packed(self, self.pack('()')))
                 else: self.bad('missing result expression', blk.line)
@@ -1607,6 +1796,7 @@ class SFn(B.FnTranslator):
         self.counter = self.temps = self.loops = 0
         self.implicit_used, self.io_used = set(), False
         self.local_uses = {}
+        self.ghost = None
         n_fuel = self.count_fuel(fn.body)
         self.fuel_names = ['fuel'] if n_fuel == 1 else [f'fuel{i + 1}' for i in range(n_fuel)]
         self.fuel_i = 0
@@ -1625,15 +1815,18 @@ class SFn(B.FnTranslator):
             self.params_v.append(v)
             ptexts.append(f'({lname(pn)} : {self.lt(v.ty)})')
         fuels = self.fuel_names
+        n_explicit = len(ptexts)
         ptexts += [f'({f} : Nat)' for f in fuels]
         self.block(fn.body, FnCtx(self), fn_level=True)
+        if self.ghost is not None: ptexts.insert(n_explicit, f'({GHOST_READER} : Src)')
         imp = [i for i in IMPLICIT if i in self.implicit_used]
         ptexts = [f'({i} : {IMPLICIT[i]})' for i in imp] + ptexts
         sig_src = ' '.join(x.strip() for x in self.src_lines[fn.line - 1:fn.body.line]).rstrip('{').strip()
         fname = self.module.label.rsplit('/', 1)[1]
         doc = f'/-- `{sig_src}` ({fname} line {fn.line}) -/'
-        head = f'def {self.lean_name} {" ".join(ptexts)} : {self.block_ty()} :=' if ptexts else f'def {self.lean_name} : {self.block_ty()} :='
-        fn.info = dict(fuel=fuels, implicit=imp, world=bool(self.world()))
+        head = (f'{self.attr}def {self.lean_name} {" ".join(ptexts)} : {self.block_ty()} :=' if ptexts
+                else f'{self.attr}def {self.lean_name} : {self.block_ty()} :=')
+        fn.info = dict(fuel=fuels, implicit=imp, world=bool(self.world()), ghost=self.ghost is not None)
         return self.lifted + [doc + '\n' + head + '\n' + '\n'.join(self.lines)]
 
 
@@ -1682,6 +1875,11 @@ HEADER = '''/-
   * `loop` is `Rs.loop body fuel state`: the body is the definition `<fn>.loop<k>` over the tuple of outer variables it
     assigns, the function has a parameter `fuel` and returns `Option`: `none` = the iteration budget ran out.
     An `if` that can leave its block and is not last in it is `Rs.Step.andThen (if …) (fun assigned-variables => rest)`.
+  * A `const` item and a helper function (translated only because one of the functions listed above calls it) are `@[simp]`:
+    proofs see through them (`rs_unfold`), so naming a literal or extracting a helper changes nothing for them.  A helper that
+    writes but has no reader gets the reader whose position the write log records as a ghost parameter `reader'`.
+    `let x = &mut v[a..b];` makes `x` another name for that part of `v`; `(a, b)` is a pair; `u32::from(b)` for a bool is
+    `if b then 1 else 0`.
   * External crate functions (argument and result types read from lib.rs): `chapoly_encrypt_noise` / `chapoly_decrypt_noise`
     are `A.enc` / `A.dec` of a parameter `A : Kestrel.Aead`; `scrypt`, `hkdf_sha256`, `noise_encrypt`, `noise_decrypt` are
     `RsIO.scrypt` / `hkdfSha256` / `noiseEncrypt` / `noiseDecrypt` over a parameter `P : Kestrel.Prims`; `secure_random(n)` is
@@ -1711,10 +1909,13 @@ def call_graph(mod, fn):
     return [n for n in mod.items['order'] if n in names]
 
 
-def translate_fn(crate, modname, fn, lean_name=None):
+def translate_fn(crate, modname, fn, lean_name=None, attr=''):
     try:
-        SFn(crate, modname, fn, lean_name).run()             # first pass fixes the types of untyped literals
+        first = SFn(crate, modname, fn, lean_name)           # first pass fixes the types of untyped literals
+        first.ghost_ok = True
+        first.run()
         tr = SFn(crate, modname, fn, lean_name)
+        tr.attr, tr.ghost_ok = attr, True
         return tr.run(), tr.deps
     except Unsupported as u:
         if not getattr(u, 'fn', None): u.fn = f'{qual(modname, fn.name)}'
@@ -1736,7 +1937,10 @@ def translate(crate, targets):
             u = Unsupported(f'recursion through `{name}`'); u.fn = qual(modname, name); raise u
         for callee in call_graph(mod, fn):
             visit(modname, callee, stack + [name])
-        chunks, deps = translate_fn(crate, modname, fn)
+        # a function that is translated only because a target calls it is a helper: `@[simp]`, so that `simp` sees through
+        # it and extracting a helper from a target does not change what a proof about the target sees
+        helper = name not in dict(targets).get(modname, [])
+        chunks, deps = translate_fn(crate, modname, fn, attr='@[simp] ' if helper else '')
         mod_chunks.setdefault(modname, []).extend(chunks)
         deps_all.update(deps)
         done.add((modname, name))
@@ -1766,7 +1970,7 @@ def translate(crate, targets):
             ty = tr.sem(node.ty, node.line)
             r = tr.expr(node.e, ty); tr.unify(r[1], ty, node.line, f'const {name}'); r = tr.expr(node.e, ty)
             text = (f'/-- `const {name}` ({crate.mods[modname].label.rsplit("/", 1)[1]} line {node.line}) -/\n'
-                    f'def {lname(name)} : {tr.lt(ty)} := {r[0]}')
+                    f'@[simp] def {lname(name)} : {tr.lt(ty)} := {r[0]}')
         except Unsupported as u:
             u.fn = f'const {qual(modname, name)}'; raise
         consts.setdefault(modname, []).append(text)
